@@ -63,7 +63,7 @@ pub fn abscissa_lists(thorough: bool) -> Vec<Vec<f64>> {
         }
     }
     // long knot lists around size thresholds: unit spacing and an uneven repeating spacing pattern, three offsets / scalings
-    for n in [8usize, 9, 12, 16, 17, 33, 65].into_iter().chain(if thorough { vec![10usize, 32, 64, 129, 257] } else { vec![] }) {
+    for n in [8usize, 9, 12, 16, 17, 33, 34, 65, 129, 130, 257].into_iter().chain(if thorough { vec![10usize, 32, 64, 66, 131, 258, 513] } else { vec![] }) {
         let unit: Vec<f64> = (0..n).map(|i| i as f64).collect();
         let gaps = [0.5, 0.25, 2.25, 7.0, 0.125];
         let mut acc = 0.0;
